@@ -46,6 +46,7 @@ func openEnv(record bool) *h.Env {
 	}
 	e.MustExec("CREATE TABLE c11_dup (n integer)")
 	e.MustExec("INSERT INTO c11_dup (n) VALUES (1),(2)")
+	e.MustExec("CREATE TABLE c11_mult (pseq integer, n integer)")
 	if record {
 		e.Rec.Resume()
 	}
@@ -110,9 +111,47 @@ func buildFamilies(e *h.Env) {
 	poly.stdChecks(poly.Dirs[0], "Toys", "Toy1", true)
 
 	self := newBip(bipCfg{name: "self", lt: "c11_node", rt: "c11_node", lk: []string{"id"}, rk: []string{"parent_id"},
-		lTyp: T(Node{}), rTyp: T(Node{}), many: "Children", bel: "Parent", self: true})
+		lTyp: T(Node{}), rTyp: T(Node{}), many: "Children", bel: "Parent", extraOne: []string{"Boss"}, self: true})
 	self.stdChecks(self.Dirs[0], "Children", "", false)
 	self.stdChecks(self.Dirs[1], "", "Parent", true)
+	{
+		// association Joins of self-referential relations with a Preload below a
+		// joined relation: every set of top-level joins over {Parent, Boss} x
+		// every nested path X.Y with X joined and Y any relation of the model
+		// (in particular Y equal to the name of a top-level join)
+		d := self.Dirs[1]
+		for _, js := range [][]string{{"Parent"}, {"Boss"}, {"Parent", "Boss"}, {"Boss", "Parent"}} {
+			for _, x := range js {
+				for _, y := range []string{"Parent", "Boss", "Children"} {
+					js, x, y := js, x, y
+					name := ""
+					var exp []Exp
+					for _, j := range js {
+						name += "Joins(" + j + ")."
+						mode := ""
+						if j == x {
+							mode = "n:" + y
+						}
+						exp = append(exp, Exp{j, mode})
+					}
+					name += "Preload(" + x + "." + y + ")"
+					core := none
+					if y == x && len(js) == 1 {
+						core = shSlice
+					}
+					self.preload(d, name, func(db *gorm.DB) *gorm.DB {
+						for _, j := range js {
+							db = db.Joins(j)
+						}
+						return db.Preload(x + "." + y)
+					}, exp, core, shStruct, shSlice, shPtrSlice)
+				}
+			}
+		}
+		self.preload(d, "Joins(Parent).Preload(Parent.Boss).Preload(Boss)", func(db *gorm.DB) *gorm.DB {
+			return db.Joins("Parent").Preload("Parent.Boss").Preload("Boss")
+		}, []Exp{{"Parent", "n:Boss"}, {"Boss", ""}}, none, shSlice, shStruct)
+	}
 
 	j1 := joinTableOf(e, &ML{}, "Rights")
 	m2m := newM2M("m2m", "c11_ml", []string{"id"}, T(ML{}), j1.table, j1.left, j1.right)
@@ -129,6 +168,7 @@ func buildFamilies(e *h.Env) {
 		}
 		pre("Preload(Kids.Toys)", "toys", shSlice, func(db *gorm.DB) *gorm.DB { return db.Preload("Kids.Toys") },
 			shStruct, shPrefilled, shSlice, shPtrSlice, shDup)
+		nest.multChecks(gp, "Preload(Kids.Toys)", func(db *gorm.DB) *gorm.DB { return db.Preload("Kids.Toys") }, []Exp{{"Kids", "toys"}})
 		pre("Preload(Kids).Preload(Kids.Toys)", "toys", none, func(db *gorm.DB) *gorm.DB { return db.Preload("Kids").Preload("Kids.Toys") }, shSlice)
 		pre("Preload(Kids,cond).Preload(Kids.Toys)", "cond+toys", shSlice, func(db *gorm.DB) *gorm.DB {
 			return db.Preload("Kids", "tag = ?", "x").Preload("Kids.Toys")
@@ -555,12 +595,18 @@ func parts(tier string) []*Part {
 		add(&Part{Name: "csi/S", Fam: f["csi"], KeyLists: csi12, MaxC: 2, DelMode: 2, Half: true})
 		add(&Part{Name: "poly/K", Fam: f["poly"], KeyLists: cat(ordered(u1, 1), ordered(u1, 2)), MaxC: 2, DelMode: 1, CoreOnly: true})
 		add(&Part{Name: "poly/S", Fam: f["poly"], KeyLists: single12, MaxC: 3, DelMode: 2})
-		add(&Part{Name: "self/K", Fam: f["self"], KeyLists: cat(ordered(u1, 1), ordered(u1, 2)), DelMode: 1})
-		add(&Part{Name: "self/S", Fam: f["self"], KeyLists: single3, DelMode: 1})
+		add(&Part{Name: "self/K", Fam: f["self"], KeyLists: cat(ordered(u1, 1), ordered(u1, 2)), DelMode: 1, CoreOnly: true})
+		add(&Part{Name: "self/S", Fam: f["self"], KeyLists: cat(single12[3:5], single3), DelMode: 1})
 		add(&Part{Name: "m2m/K", Fam: f["m2m"], KeyLists: cat(ordered(u1, 1), ordered(u1, 2)), MaxC: 2, DelMode: 1, CoreOnly: true})
 		add(&Part{Name: "m2m/S", Fam: f["m2m"], KeyLists: single12, MaxC: 3, DelMode: 1})
 		add(&Part{Name: "xm2m/K", Fam: f["xm2m"], KeyLists: cat(ordered(u2, 1), ordered(u2, 2)), MinC: 1, MaxC: 1, DelMode: 0, CoreOnly: true})
 		add(&Part{Name: "xm2m/S", Fam: f["xm2m"], KeyLists: css12, MaxC: 3, DelMode: 1})
+		// three parents (fixed key lists): needed for anything that involves a
+		// parent and two different later parents
+		add(&Part{Name: "str/S3", Fam: f["str"], KeyLists: single3, MaxC: 3, DelMode: 1})
+		add(&Part{Name: "css/S3", Fam: f["css"], KeyLists: css3, MaxC: 2, DelMode: 1})
+		add(&Part{Name: "m2m/S3", Fam: f["m2m"], KeyLists: single3, MinC: 2, MaxC: 2, DelMode: 1})
+		add(&Part{Name: "xm2m/S3", Fam: f["xm2m"], KeyLists: css3, MinC: 2, MaxC: 2, DelMode: 1})
 		add(&Part{Name: "nest/K", Fam: f["nest"], KeyLists: cat(ordered(u1, 1), ordered(u1, 2)), MinC: 1, MaxC: 2, MaxT: 2, DelMode: 0, CoreOnly: true})
 		add(&Part{Name: "nest/S", Fam: f["nest"], KeyLists: single12[3:5], MaxC: 3, MaxT: 2, DelMode: 1})
 		return ps
@@ -584,7 +630,7 @@ func parts(tier string) []*Part {
 	add(&Part{Name: "xm2m/K", Fam: f["xm2m"], KeyLists: cat(ordered(u2, 1), ordered(u2, 2)), MinC: 1, MaxC: 2, DelMode: 1, CoreOnly: true})
 	add(&Part{Name: "xm2m/S", Fam: f["xm2m"], KeyLists: cat(css12, css3), MaxC: 3, DelMode: 1})
 	add(&Part{Name: "nest/K", Fam: f["nest"], KeyLists: cat(ordered(u1, 1), ordered(u1, 2)), MinC: 1, MaxC: 2, MaxT: 3, DelMode: 1, CoreOnly: true})
-	add(&Part{Name: "nest/S", Fam: f["nest"], KeyLists: cat(single12[3:6], single3[:2]), MaxC: 3, MaxT: 3, DelMode: 1})
+	add(&Part{Name: "nest/S", Fam: f["nest"], KeyLists: cat(single12[3:5], single3[:1]), MaxC: 3, MaxT: 3, DelMode: 1})
 	return ps
 }
 
@@ -679,6 +725,7 @@ func main() {
 			fmt.Fprintln(os.Stderr, err)
 			os.Exit(3)
 		}
+		thoroughTier = true // the thorough check list contains the quick one
 		e := openEnv(true)
 		buildFamilies(e)
 		f := famByName[c.Graph.Family]
@@ -718,6 +765,7 @@ func main() {
 		deadline = time.Now().Add(time.Duration(s) * time.Second)
 	}
 
+	thoroughTier = args.Tier == "thorough"
 	boot := openEnv(false)
 	buildFamilies(boot)
 	ps := parts(args.Tier)
@@ -898,7 +946,7 @@ func main() {
 		nchecks += len(f.Checks)
 	}
 	run.Assume("SQLite dialect; rows are inserted with raw SQL, the write path is not exercised")
-	run.Assume("a record whose relation key tuple consists only of zero values (\"\", 0, NULL) is skipped: gorm treats an all-zero key as 'no key' (preload does not query it, a SQL join does) — such records are enumerated but their relation fields are not compared")
+	run.Assume("a record whose relation key tuple consists only of zero values (\"\" or 0 in a value field, NULL in a pointer field) is skipped: gorm treats an all-zero key as 'no key' (preload does not query it, a SQL join does) — such records are enumerated but their relation fields are not compared")
 	run.Assume("many-to-many far-side rows and nested middle rows never have the empty string as primary key, for the same reason")
 	run.Assume("has-one with several eligible rows: any one of them is accepted (the property does not say which); association Joins is compared as a LEFT JOIN row set")
 	run.Assume("the plain (no eager loading) read of the parents used for Association().Find is trusted")
